@@ -1683,3 +1683,11 @@ package query
 //@   ghostset floatKeysNormalized = floatKeysNormalized + 1
 //@   ensures [negative-zero-gets-the-key-of-zero] (s == "-0" ==> result == "0") && (s != "-0" ==> result == s)
 //@   modifies floatKeysNormalized
+
+// C19: the path resolution of cacheViewFromFile reports a failure of CreateFilePath with the error it got (it used to
+// dereference the still-nil outer error: Fatal Error in a removed working directory; fix b6c91ca)
+//@ func cacheViewFromFile$1
+//@   property C19
+//@   safety
+//@   abstract *
+//@   requires scope != nil && scope.Tx != nil && scope.Tx.Flags != nil
